@@ -9,7 +9,7 @@ from typing import Any, Dict, List, Optional, Tuple
 
 from . import core
 from .absint import (CellV, CondV, ExcV, Interp, ListV, NoneV, OriginV, Outcome, State, Unknown)
-from .lin import Atom, DivA, FltDivA, Fn, Lin, ModA, Opaque, Slice, Sym, compare
+from .lin import Atom, DivA, FltDivA, Fn, Lin, ModA, Opaque, OrA, Slice, Sym, compare
 
 SER = "a5/core/serialization.py"
 INFO = "a5/core/cell_info.py"
@@ -285,6 +285,8 @@ def eval_atom(a: Atom, val: Dict[str, int], fnval) -> int:
         return eval_lin(a.lin, val, fnval) % a.m
     if isinstance(a, DivA):
         return eval_lin(a.lin, val, fnval) // a.m
+    if isinstance(a, OrA):
+        return eval_lin(a.x, val, fnval) | eval_lin(a.y, val, fnval)
     if isinstance(a, FltDivA):
         import math as _m
         return _m.floor(eval_lin(a.lin, val, fnval) / (1 << a.k))      # int / int: correctly rounded quotient, as in the analysed code
